@@ -83,6 +83,13 @@ C["C01"] = ("Coq theorems over the same transition system: on every connection, 
             "(errors, fixed answers, the sum error) has no LF in its text for ANY request content, so it is one frame; decoding does not depend on fragmentation (C10). Tie: pipelines with "
             "random fragmentation and concurrent connections against nodes answering at different speeds, replies and absence of extra bytes compared with the model.",
             "Delays are per node; Go-level interleavings sampled.", "DESIGN.md §4 C01")
+C["C04"] = ("Coq theorems over a model of a migrating cluster (per-node data, slot owners, migrating slots; nodes answer execute / ASK / MOVED by Redis Cluster's rules) and of the proxy's "
+            "redirect handling, for EVERY per-key command semantics and slot function: any sequence of migration steps keeps 'each key lives on the owner or, while migrating, on owner or "
+            "target but not both' and leaves the single-server view of the data unchanged; a request started at ANY node (arbitrarily stale table), with migration steps before every hop, "
+            "ends within 3 hops with exactly one execution, the single server's reply (never MOVED/ASK) and the single server's data afterwards; whole programs follow by induction. "
+            "Tie: client programs with scripted migrations, steps fired inside redirect chains, stale/fresh tables, failovers and background traffic through the real processor vs the model.",
+            "Excludes a new migration of the request's own slot between two of its hops; failover assumes the replica has the data; errors allowed only until the refresh triggered by the "
+            "unreachable node completes.", "DESIGN.md §4 C04")
 checks = []
 for pid in sorted(C):
     text, note, ref = C[pid]
